@@ -221,8 +221,8 @@ Section Proofs.
     apply goodiv_update. exact G1.
   Qed.
 
-  Lemma cg_ret_ok : forall iv, goodiv iv -> good (rs (cg_ret iv)) (rt (cg_ret iv)).
-  Proof. intros iv G; exact G. Qed.
+  Lemma cg_ret_ok : forall iv br, goodiv iv -> good (rs (cg_ret iv br)) (rt (cg_ret iv br)).
+  Proof. intros iv br G; exact G. Qed.
 
   Lemma cg_loop_ok : forall fuel i iv,
     goodiv iv -> ok (cg_loop phi prm p0 fuel i iv) = true ->
